@@ -209,6 +209,7 @@ def regSx : Val → Sx
 def okRegister : Val → Bool
   | .regF _ (.int k) => decide (0 < k)
   | .regF _ (.const _ _) => true
+  | .regF _ (.param _ _) => true
   | _ => false
 
 /-- is the step written (`if s.step:` in `notate_slice`)? not for the int 0 -/
